@@ -14,7 +14,7 @@ def main():
     for C in reg:
         if C.module != "contracts." + sys.argv[1] or flt not in C.name:
             continue
-        res = V.verify(C)
+        res = V.verify(C, timeout=float(__import__('os').environ.get('T', '5')))
         for ob in res:
             tot += 1
             if ob["status"] == "discharged":
